@@ -2365,6 +2365,24 @@ func runRestoreCase(rng *rand.Rand, out *bufio.Writer, st *stats, caseNo int) {
 			}()
 			st.Hist["shutdown-during-restore"]++
 		}
+		if !racing && rng.Intn(3) == 0 {
+			// an ordinary snapshot of the leader is still being written while the restore runs (a slow
+			// Persist), and finishes after it: the restore's position must not be lost to it
+			l.fsm.mu.Lock()
+			l.fsm.persist = time.Duration(300+rng.Intn(500)) * time.Millisecond
+			l.fsm.mu.Unlock()
+			ls := l
+			c.wg.Add(1)
+			go func() {
+				defer c.wg.Done()
+				_ = ls.r.Snapshot().Error()
+			}()
+			synctest.Wait() // the snapshot goroutine is inside Persist now
+			l.fsm.mu.Lock()
+			l.fsm.persist = 0
+			l.fsm.mu.Unlock()
+			st.Hist["snapshot-being-written-during-restore"]++
+		}
 		t0 := h.now()
 		h.rec("RI %d %d %d", l.id, l.life, t0)
 		err := l.r.Restore(meta, strings.NewReader(string(blob)), 2*time.Second)
